@@ -6,11 +6,16 @@
 EXTENDS MiniDyn, Json
 Nm(neg, d, e, sp) == [t |-> "N", n |-> [neg |-> neg, d |-> d, e |-> e, sp |-> sp]]
 Big(last) == Nm(FALSE, <<9,0,0,7,1,9,9,2,5,4,7,4,0,9,9,last>>, 0, <<57,48,48,55,49,57,57,50,53,52,55,52,48,57,57,48 + last>>)
+Z(k) == [i \in 1..k |-> 48]
 D38(last) == Nm(FALSE, [i \in 1..38 |-> IF i = 38 THEN last ELSE 1], 0, [i \in 1..38 |-> IF i = 38 THEN 48 + last ELSE 49])
 Nums == << Nm(FALSE, <<1>>, 0, <<49>>), Nm(FALSE, <<1,0>>, -1, <<49,46,48>>), Nm(FALSE, <<1>>, 0, <<49,101,48>>), Nm(FALSE, <<0,1>>, 0, <<48,49>>),
            Nm(FALSE, <<0>>, 0, <<48>>), Nm(TRUE, <<0>>, 0, <<45,48>>), Nm(FALSE, <<9>>, 0, <<57>>), Nm(FALSE, <<1,0>>, 0, <<49,48>>), Nm(FALSE, <<1>>, 1, <<49,101,49>>),
            Nm(FALSE, <<1>>, -1, <<48,46,49>>), Nm(FALSE, <<2>>, -1, <<48,46,50>>), Nm(FALSE, <<3>>, -1, <<48,46,51>>), Nm(TRUE, <<1,5>>, -1, <<45,49,46,53>>),
-           Big(2), Big(3), D38(1), D38(2) >>
+           Big(2), Big(3), D38(1), D38(2),
+           \* beyond the int64 range with one or two significant digits; closer together than 1e-9; the ends of the exponent range
+           Nm(FALSE, <<1>>, 19, <<49>> \o Z(19)), Nm(FALSE, <<1,6>>, 18, <<49,54>> \o Z(18)), Nm(TRUE, <<1>>, 19, <<45,49>> \o Z(19)),
+           Nm(FALSE, <<2>>, -10, <<48,46>> \o Z(9) \o <<50>>), Nm(FALSE, <<3>>, -10, <<48,46>> \o Z(9) \o <<51>>),
+           Nm(FALSE, <<1>>, 125, <<49,69,49,50,53>>), Nm(FALSE, <<1>>, -130, <<49,69,45,49,51,48>>) >>
 NS == { Nums[i] : i \in DOMAIN Nums }
 NS1 == NS \ { Nums[13] }     \* the second member of the generated number sets
 P(n) == <<[s |-> "n", n |-> n, i |-> 0]>>
